@@ -430,3 +430,24 @@ package obfs4
 //@   ensures [C18:factory_uses_state_identity] err == nil ==> typeis(sf, "*obfs4.obfs4ServerFactory") && payload(sf) != nil && sf.(*obfs4ServerFactory).nodeID != nil && kpOK(sf.(*obfs4ServerFactory).identityKey)
 //@       && 0 <= sf.(*obfs4ServerFactory).iatMode && sf.(*obfs4ServerFactory).iatMode <= 2 && sf.(*obfs4ServerFactory).replayFilter != nil && sf.(*obfs4ServerFactory).lenSeed != nil
 //@       && (sf.(*obfs4ServerFactory).iatMode != 0 ==> sf.(*obfs4ServerFactory).iatSeed != nil)
+
+// ---- entry points: a connection object exists only after a completed handshake ----
+//@ func (*obfs4ServerFactory).WrapConn(sf, conn) (c, err)
+//@   serves C03 C10
+//@   requires sfOK(sf) && conn != nil && payload(conn) != nil && (sf.iatMode != 0 ==> sf.iatSeed != nil) && biasedDist != nil
+//@   requires outside(conn, sf.replayFilter) && outside(sf, sf.replayFilter) && outside(sf.identityKey, sf.replayFilter) && outside(sf.identityKey.public, sf.replayFilter) && outside(sf.identityKey.private, sf.replayFilter) && outside(sf.nodeID, sf.replayFilter)
+//@   modifies conn.*, blocked, now, sf.replayFilter.*
+//@   ghost nw0 := conn.nwrites
+//@   ensures (err == nil) == (c != nil)
+//@   ensures [C03:connection_only_after_handshake] err == nil ==> typeis(c, "*obfs4.obfs4Conn") && payload(c) != nil && c.(*obfs4Conn).isServer && c.(*obfs4Conn).encoder != nil && c.(*obfs4Conn).decoder != nil && c.(*obfs4Conn).Conn == conn
+//@   ensures [C03:at_most_the_one_response_is_written] conn.nwrites <= nw0 + 1
+//@   ensures [C03:failed_handshake_is_closed] err != nil && conn.nreads > old(conn.nreads) ==> conn.closed
+//@   ensures [C10:handshake_timeout_disarmed] err == nil ==> conn.deadline == 0 && conn.rdeadline == 0
+
+//@ func newObfs4ClientConn(conn, args) (c, err)
+//@   serves C02 C10
+//@   requires conn != nil && payload(conn) != nil && args != nil && args.nodeID != nil && args.publicKey != nil && kpOK(args.sessionKey) && args.sessionKey.representative != nil && 0 <= args.iatMode && args.iatMode <= 2 && biasedDist != nil
+//@   modifies conn.*, blocked, now
+//@   ensures (err == nil) == (c != nil)
+//@   ensures [C02:connection_only_after_authenticated_handshake] err == nil ==> !c.isServer && c.encoder != nil && c.decoder != nil && encInv(c.encoder) && decInv(c.decoder) && c.Conn == conn && fresh(c)
+//@   ensures [C10:handshake_timeout_disarmed] err == nil ==> conn.deadline == 0 && conn.rdeadline == 0
